@@ -34,6 +34,11 @@ def log(*a):
     print("[verif]", *a, file=sys.stderr, flush=True)
 
 
+def evid_dir():
+    a = _alt()
+    return EVID if a is None else os.path.join(BUILD, "evidence-" + a)
+
+
 def go_env(extra=None):
     e = dict(os.environ)
     e.update({"GOFLAGS": "-mod=mod", "GOPROXY": "off", "GOSUMDB": "off", "GOTOOLCHAIN": "local",
@@ -43,9 +48,25 @@ def go_env(extra=None):
     return e
 
 
+def _alt():
+    """When VERIF_REPO points at a private copy of the repository (mutant testing), a private go.mod is
+    used through -modfile and binaries get a suffix, so that concurrent runs do not disturb each other."""
+    if os.path.abspath(REPO) == "/repo":
+        return None
+    return hashlib.sha1(os.path.abspath(REPO).encode()).hexdigest()[:10]
+
+
+def modfile():
+    a = _alt()
+    if a is None:
+        return os.path.join(HARNESS, "go.mod")
+    return os.path.join(BUILD, "mod-" + a, "go.mod")
+
+
 def ensure_gomod():
     """harness/go.mod is generated from /repo/go.mod (same require graph) + replace => /repo."""
     os.makedirs(BUILD, exist_ok=True)
+    os.makedirs(os.path.dirname(modfile()), exist_ok=True)
     with open(os.path.join(BUILD, ".modlock"), "w") as lk:
         fcntl.flock(lk, fcntl.LOCK_EX)
         src = open(os.path.join(REPO, "go.mod")).read()
@@ -63,11 +84,11 @@ def ensure_gomod():
         out.append("require %s v2.0.0-00010101000000-000000000000" % MODPATH)
         out.append("replace %s => %s" % (MODPATH, REPO))
         txt = "\n".join(out) + "\n"
-        p = os.path.join(HARNESS, "go.mod")
+        p = modfile()
         if not os.path.exists(p) or open(p).read() != txt:
             open(p, "w").write(txt)
         s = open(os.path.join(REPO, "go.sum")).read()
-        p = os.path.join(HARNESS, "go.sum")
+        p = os.path.join(os.path.dirname(modfile()), "go.sum")
         if not os.path.exists(p) or open(p).read() != s:
             open(p, "w").write(s)
 
@@ -76,9 +97,11 @@ def build_go(pkg, race=False, tags="verif"):
     """go test -c for harness package pkg; returns path of the test binary. Always rebuilds
     (the go build cache makes the unchanged case cheap) so /repo edits are picked up."""
     ensure_gomod()
-    name = pkg.replace("/", "_") + ("_race" if race else "") + ".test"
+    name = pkg.replace("/", "_") + ("_race" if race else "") + ("_" + _alt() if _alt() else "") + ".test"
     out = os.path.join(BUILD, name)
     cmd = [GO, "test", "-c", "-vet=off", "-tags", tags, "-o", out]
+    if _alt():
+        cmd.append("-modfile=" + modfile())
     if race:
         cmd.append("-race")
     cmd.append("./" + pkg)
@@ -309,9 +332,9 @@ class Ctx:
                 return
         if ck in [canon(v[0]) for v in self.viol]:
             return
-        os.makedirs(REPLAYS, exist_ok=True)
+        os.makedirs(os.path.join(evid_dir(), "replays"), exist_ok=True)
         n = len(self.viol)
-        rp = os.path.join(REPLAYS, "%s-%d.json" % (self.prop, n))
+        rp = os.path.join(evid_dir(), "replays", "%s-%d.json" % (self.prop, n))
         with open(rp, "w") as f:
             json.dump({"property": self.prop, "seed": self.seed, "tier": self.tier, "key": key, "what": what, "detail": detail}, f, indent=1, sort_keys=True, default=str)
         self.viol.append((key, what, rp))
@@ -334,8 +357,8 @@ class Ctx:
         cov.update(self.extra)
         ev = {"property_id": self.prop, "tier": self.tier, "seed": int(self.seed), "level": self.level,
               "coverage": cov, "assumptions": self.assumptions, "wall_s": round(wall, 2), "violations": len(self.viol)}
-        os.makedirs(EVID, exist_ok=True)
-        with open(os.path.join(EVID, self.prop + ".json"), "w") as f:
+        os.makedirs(evid_dir(), exist_ok=True)
+        with open(os.path.join(evid_dir(), self.prop + ".json"), "w") as f:
             json.dump(ev, f, indent=1, sort_keys=True, default=str)
         shutil.rmtree(self.scratch, ignore_errors=True)
         return 1 if self.viol else 0
